@@ -16,7 +16,8 @@ package c08
 //          (empty default), {$V:default}, {env.V}, {file.PATH}, {vars.X} over {env.V} and over {file.PATH} - quoted and
 //          bare, for secrets also behind the literal scheme prefix ("raw:{$V}") and as a secret reference that is read when
 //          the authenticators are built ("env:V", "file:PATH")
-//   state  of the variable / file a placeholder names: holds the valid value | empty | blank | unset (file: missing)
+//   state  of the variable / file a placeholder names: holds the valid value | empty | blank | unset (file: missing) |
+//          holds a value that is no valid value for the option
 //   op     fresh boot with that text in that environment | boot with the valid value, then change the environment (for
 //          literals: rewrite the Hookaidofile) and reload | thorough: ... and then bring the valid value back and reload again
 //
@@ -327,6 +328,8 @@ func (f declForm) resolve(s *declSite, state string) (string, string) {
 		return s.valid, "value"
 	case state == "unset" && f.def:
 		return s.alt, "value"
+	case state == "invalid":
+		return "", "invalid"
 	}
 	return "", "void"
 }
@@ -367,8 +370,11 @@ func newDeclEnv(carrier, dir string) *declEnv {
 	return e
 }
 
-func (e *declEnv) set(state, valid string) error {
-	content := map[string]string{"valid": valid, "empty": "", "blank": " "}[state]
+func (e *declEnv) set(state string, k *declCase) error {
+	content := map[string]string{"valid": strings.TrimPrefix(k.site.valid, declPrefix(k)), "empty": "", "blank": " "}[state]
+	if state == "invalid" {
+		content = strings.TrimPrefix(k.site.invalid[0], declPrefix(k))
+	}
 	switch e.carrier {
 	case "env":
 		if state == "unset" {
@@ -590,7 +596,7 @@ func declRunCase(k *declCase, slot int, dir string) (outcome string, w *declWorl
 		return "", nil, dsl, fmt.Errorf(format, a...)
 	}
 	if k.Op == "boot" {
-		if err := e.set(k.State, strings.TrimPrefix(s.valid, declPrefix(k))); err != nil {
+		if err := e.set(k.State, k); err != nil {
 			return infra("set environment: %v", err)
 		}
 		w, err := declBoot(dir, dsl)
@@ -611,7 +617,7 @@ func declRunCase(k *declCase, slot int, dir string) (outcome string, w *declWorl
 	first := dsl
 	if f.literal != nil {
 		first = declText(slot, s, strconv.Quote(s.valid), "")
-	} else if err := e.set("valid", strings.TrimPrefix(s.valid, declPrefix(k))); err != nil {
+	} else if err := e.set("valid", k); err != nil {
 		return infra("set environment: %v", err)
 	}
 	w, err = declBoot(dir, first)
@@ -624,7 +630,7 @@ func declRunCase(k *declCase, slot int, dir string) (outcome string, w *declWorl
 		if err := os.WriteFile(w.a.ConfigPath, []byte(dsl), 0o644); err != nil {
 			return infra("write config: %v", err)
 		}
-	} else if err := e.set(k.State, strings.TrimPrefix(s.valid, declPrefix(k))); err != nil {
+	} else if err := e.set(k.State, k); err != nil {
 		return infra("set environment: %v", err)
 	}
 	applied := w.a.Reload("verif")
@@ -652,7 +658,7 @@ func declRunCase(k *declCase, slot int, dir string) (outcome string, w *declWorl
 		if err := os.WriteFile(w.a.ConfigPath, []byte(first), 0o644); err != nil {
 			return infra("write config: %v", err)
 		}
-	} else if err := e.set("valid", strings.TrimPrefix(s.valid, declPrefix(k))); err != nil {
+	} else if err := e.set("valid", k); err != nil {
 		return infra("set environment: %v", err)
 	}
 	if !w.a.Reload("verif") {
@@ -678,6 +684,8 @@ func declCases(thorough bool) []*declCase {
 			states := declStates
 			if f.literal != nil {
 				states = []string{"-"}
+			} else if len(s.invalid) > 0 {
+				states = append(append([]string(nil), declStates...), "invalid") // the variable / file holds the site's first invalid literal
 			}
 			for _, st := range states {
 				ops := []string{"boot", "reload"}
